@@ -276,16 +276,32 @@ def build(case):
     class Poly(tp.models.Model):
         """u(x) = sum_k coef[k] x^k"""
 
-        def __init__(self, init, inp, out):
+        def __init__(self, init, inp, out, shape="vec"):
+            """shape of the learnable tensors that hold the coefficients: one vector (k,), a column (k,1), a row (1,k),
+            or one tensor per coefficient — 0-dimensional scalars (like AdaptiveActivationFunction.a) or shape (1,) / (1,1)"""
             super().__init__(inp, out)
-            self.coef = torch.nn.Parameter(torch.tensor([float(Fraction(a)) for a in init], dtype=dt))
+            vals = [float(Fraction(a)) for a in init]
+            self.n = len(vals)
+            if shape in ("vec", "col", "row"):
+                t = torch.tensor(vals, dtype=dt)
+                self.coef = torch.nn.Parameter(t if shape == "vec" else t.reshape(-1, 1) if shape == "col" else t.reshape(1, -1))
+            else:
+                mk = {"scalars0d": lambda v: torch.tensor(v, dtype=dt), "ones": lambda v: torch.tensor([v], dtype=dt),
+                      "oneones": lambda v: torch.tensor([[v]], dtype=dt)}[shape]
+                self.cs = torch.nn.ParameterList([torch.nn.Parameter(mk(v)) for v in vals])
+
+        def c(self, k):
+            return self.coef.reshape(-1)[k] if hasattr(self, "coef") else self.cs[k].reshape(())
+
+        def coef_tensors(self):
+            return [("coef", self.coef)] if hasattr(self, "coef") else [(f"cs.{k}", p) for k, p in enumerate(self.cs)]
 
         def forward(self, points):
             points = self._fix_points_order(points)
-            x = points.as_tensor.to(self.coef.dtype)     # library grid samplers emit float32
+            x = points.as_tensor.to(self.c(0).dtype)     # library grid samplers emit float32
             y = torch.zeros_like(x)
-            for k in range(self.coef.numel()):
-                y = y + self.coef[k] * x ** k if k else y + self.coef[0]
+            for k in range(self.n):
+                y = y + self.c(k) * x ** k if k else y + self.c(0)
             return tp.spaces.Points(y, self.output_space)
 
     class Poly2(tp.models.Model):
@@ -306,7 +322,8 @@ def build(case):
     for mi, m in enumerate(case["models"]):
         if m["kind"] == "fcn2":
             torch.manual_seed(m["seed"])
-            mod = tp.models.FCN(X * T if m.get("order", "xt") == "xt" else T * X, U, hidden=tuple(m["hidden"]))
+            mod = tp.models.FCN(X * T if m.get("order", "xt") == "xt" else T * X, U, hidden=tuple(m["hidden"]),
+                                **({"activations": tp.models.AdaptiveActivationFunction(torch.nn.Tanh(), inital_a=0.75)} if m.get("adaptive_act") else {}))
             for pn, p in mod.named_parameters():
                 reg_tensor(f"model{mi}.{pn}", p)
             B.model_syms.append(None)
@@ -315,17 +332,19 @@ def build(case):
             ids = reg_tensor(f"model{mi}.coef", mod.coef)
             B.model_syms.append(lambda x, t, ids=ids: Sym.par(ids[0]) + Sym.par(ids[1]) * x + Sym.par(ids[2]) * t + Sym.par(ids[3]) * x * t)
         elif m["kind"] == "poly":
-            mod = Poly(m["init"], X, U)
-            ids = reg_tensor(f"model{mi}.coef", mod.coef)
+            mod = Poly(m["init"], X, U, m.get("shape", "vec"))
+            ids = [i for tn, t in mod.coef_tensors() for i in reg_tensor(f"model{mi}.{tn}", t)]
             B.model_syms.append(lambda x, ids=ids: _poly_sym(ids, x))
         elif m["kind"] == "seq":
-            a = Poly(m["init"], X, V); b = Poly(m["init2"], V, U)
+            a = Poly(m["init"], X, V, m.get("shape", "vec")); b = Poly(m["init2"], V, U, m.get("shape2", "vec"))
             mod = tp.models.Sequential(a, b)
-            ia = reg_tensor(f"model{mi}.0.coef", a.coef); ib = reg_tensor(f"model{mi}.1.coef", b.coef)
+            ia = [i for tn, t in a.coef_tensors() for i in reg_tensor(f"model{mi}.0.{tn}", t)]
+            ib = [i for tn, t in b.coef_tensors() for i in reg_tensor(f"model{mi}.1.{tn}", t)]
             B.model_syms.append(lambda x, ia=ia, ib=ib: _poly_sym(ib, _poly_sym(ia, x)))
         elif m["kind"] == "fcn":
             torch.manual_seed(m["seed"])
-            mod = tp.models.FCN(X, U, hidden=tuple(m["hidden"]))
+            mod = tp.models.FCN(X, U, hidden=tuple(m["hidden"]),     # adaptive activation: a 0-dimensional learnable slope
+                                **({"activations": tp.models.AdaptiveActivationFunction(torch.nn.Tanh(), inital_a=0.75)} if m.get("adaptive_act") else {}))
             for pn, p in mod.named_parameters():
                 reg_tensor(f"model{mi}.{pn}", p)
             B.model_syms.append(None)
@@ -391,7 +410,7 @@ def build(case):
         def forward(self, device="cpu", iteration=None):
             self.seen.append(iteration)
             it = 0 if iteration is None else iteration
-            d = self.module.coef[0] - self.c[0] * it
+            d = self.module.c(0) - self.c[0] * it
             return d * d
 
     B.FixedSampler = FixedSampler
@@ -690,7 +709,7 @@ def cond_syms(case, B, c, where, ci):
         d = Sym.par(ids[0]) - Sym.it() * cc[0]
         e = d * d
         # `coef[0]` selects one entry: the whole tensor is in the autograd graph (zero gradient for the rest)
-        mids = [i for name, t, tids in B.tensors if name == f"model{c['model']}.coef" for i in tids]
+        mids = [i for name, t, tids in B.tensors if ids[0] in tids for i in tids]   # the tensor that holds coefficient 0
         for i in mids[1:]:
             e = e + Sym.par(i) * 0
         return [e]
@@ -867,7 +886,7 @@ def gen_cond(rng, case, where, allow_probe=True):
         kinds += ["probe"]
     kind = rng.choice(kinds)
     c = dict(kind=kind, weight=dy(rng, 0, 2, 4) if rng.random() < 0.85 else dy(rng, -1, 0, 4))
-    if c["weight"] == "0" and rng.random() < 0.7:
+    if c["weight"] == "0" and rng.random() < 0.3:      # weight-0 conditions stay in the generated set-ups
         c["weight"] = "1"
     if c["weight"] == "1" and kind in ("periodic", "integro", "hpcm", "hpm_sampler", "hpm_data", "ritz", "single"):
         c["weight"] = rng.choice(["1/2", "3/4", "3/2", "7/4", "-1/4"])
@@ -977,10 +996,12 @@ def gen_case_rat(rng, Nmax=8):
     case["models"] = []
     for _ in range(nm):
         if rng.random() < 0.2:
-            case["models"].append(dict(kind="seq", init=[dy(rng, -1, 1), dy(rng, -1, 1)], init2=[dy(rng, -1, 1), dy(rng, -1, 1)]))
+            case["models"].append(dict(kind="seq", init=[dy(rng, -1, 1), dy(rng, -1, 1)], init2=[dy(rng, -1, 1), dy(rng, -1, 1)],
+                                       shape=rng.choice(["vec", "scalars0d", "row"]), shape2=rng.choice(["vec", "scalars0d", "ones"])))
         else:
             deg = rng.choice([0, 1, 1, 2])
-            case["models"].append(dict(kind="poly", init=[dy(rng, -1, 1) for _ in range(deg + 1)]))
+            case["models"].append(dict(kind="poly", init=[dy(rng, -1, 1) for _ in range(deg + 1)],
+                                       shape=rng.choice(["vec", "vec", "col", "row", "scalars0d", "scalars0d", "ones", "oneones"])))
     case["params"] = [dict(init=dy(rng, -1, 1)) for _ in range(rng.choice([0, 1, 1, 2]))]
     case["train"] = [gen_cond(rng, case, "t") for _ in range(rng.choice([1, 2, 2, 3, 4]))]
     case["val"] = [gen_cond(rng, case, "v") for _ in range(rng.choice([0, 0, 1, 2]))]
@@ -1009,10 +1030,11 @@ def gen_case_torch(rng, Nmax=8):
     """float32, library samplers, FCN models, Adam (+StepLR): only the reference-loop oracle applies"""
     case = dict(channel="torch")
     nm = rng.choice([1, 2])
-    case["models"] = [dict(kind="fcn", seed=rng.randrange(10 ** 6), hidden=[rng.choice([2, 3, 5])] * rng.choice([1, 2]))
+    case["models"] = [dict(kind="fcn", seed=rng.randrange(10 ** 6), hidden=[rng.choice([2, 3, 5])] * rng.choice([1, 2]),
+                           adaptive_act=rng.random() < 0.35)
                       for _ in range(nm)]
     if rng.random() < 0.5:
-        case["models"].append(dict(kind="poly", init=[dy(rng, -1, 1), dy(rng, -1, 1)]))
+        case["models"].append(dict(kind="poly", init=[dy(rng, -1, 1), dy(rng, -1, 1)], shape=rng.choice(["vec", "scalars0d", "ones", "col"])))
     case["params"] = [dict(init=dy(rng, -1, 1)) for _ in range(rng.choice([0, 1, 2]))]
 
     def cond(where):
@@ -1027,7 +1049,8 @@ def gen_case_torch(rng, Nmax=8):
         add_periodic2(rng, case)
     if rng.random() < 0.35:
         # a library network on two variables, declared in one order, fed in either order
-        case["models"].append(dict(kind="fcn2", seed=rng.randrange(10 ** 6), hidden=[rng.choice([2, 3])], order=rng.choice(["xt", "tx"])))
+        case["models"].append(dict(kind="fcn2", seed=rng.randrange(10 ** 6), hidden=[rng.choice([2, 3])], order=rng.choice(["xt", "tx"]),
+                                   adaptive_act=rng.random() < 0.35))
         add_pinn2(rng, case, len(case["models"]) - 1, rng.choice([1, 2]))
     if rng.random() < 0.35:
         # a DeepONet with its own conditions (they use the iteration argument to cache the branch evaluation)
@@ -1063,7 +1086,7 @@ def gen_case_torch(rng, Nmax=8):
 def probe_case(rng):
     """small set-up whose learnable state depends on the iteration argument at every step"""
     case = gen_case_rat(rng, Nmax=6)
-    case["models"][0] = dict(kind="poly", init=[dy(rng, -1, 1), dy(rng, -1, 1)])
+    case["models"][0] = dict(kind="poly", init=[dy(rng, -1, 1), dy(rng, -1, 1)], shape=rng.choice(["vec", "scalars0d", "ones", "row"]))
     case["train"][0] = dict(kind="probe", weight="1", model=0, c=[rng.choice(["1/4", "1/2", "-1/4", "1/8"])])
     case["N"] = max(case["N"], 3)
     return case
@@ -1154,6 +1177,12 @@ def judge(rep, case, B, rec, Bref, ref, reply):
                      f"scheduler after every {case['opt'].get('freq', 1)}-th step (first difference of the lr histories)", case,
                      detail=dict(step=j + 1, solver_lr=a, reference_lr=b))
             break
+    # ---- oracle R: every learnable tensor reachable from a training condition is in the optimizer's param groups
+    for name in train_reachable(case, B):
+        if name not in rec["opt"]:
+            shape = [tuple(t.shape) for n2, t, _ in B.tensors if n2 == name][0]
+            rep.fail(f"learnable tensor {name} (shape {shape}) is reachable from a training condition but is not in the optimizer's "
+                     f"param groups", case, detail=dict(tensor=name, shape=list(shape)))
     # ---- oracle 1: the reference loop of the property text, bit-exact after every step
     d = first_tensor_diff(rec["tens"], ref["tens"])
     if d is not None:
@@ -1472,6 +1501,30 @@ def gen_long_case(rng, lo=1100, hi=2100):
     return case
 
 
+def share_param_with_val(rng, case, p=0.45):
+    """a validation condition that READS an inverse-problem Parameter which a training condition learns, evaluated
+    before the first training step (sanity pass, gradients disabled) and/or between training steps"""
+    used = sorted({c["param"] for c in case["train"] if c.get("param") is not None})
+    if not used or rng.random() >= p:
+        return case
+    j = rng.choice(used)
+    if rng.random() < 0.5:
+        v = dict(kind="param", weight="1", param=j, pen=rng.choice(["sq", "lin"]), c=[dy(rng, -1, 1, 4)])
+    else:
+        one_d = [i for i, m in enumerate(case["models"]) if m["kind"] in ("poly", "seq", "fcn")]
+        if not one_d:
+            return case
+        v = dict(kind="pinn", weight="1", model=rng.choice(one_d), param=j, res=rng.choice(["par", "parshift"]),
+                 sets=[gen_points(rng, 2)], static=False, c=[dy(rng, -1, 1, 4), dy(rng, -1, 1, 4), "0"], track=rng.random() < 0.5)
+    case["val"] = (case["val"] + [v])[-2:]
+    case["sanity"] = rng.random() < 0.8
+    if not case["sanity"] or rng.random() < 0.5:
+        case["val_every"] = rng.choice([1, 2]) if case["N"] >= 2 and not case.get("limit_batches") else case.get("val_every", 0)
+    if not case["sanity"] and not case.get("val_every"):
+        case["sanity"] = True
+    return case
+
+
 def split_epochs(rng, case, p=0.3):
     """Trainer(limit_train_batches=m) with max_steps > m: the run consists of several epochs (batch_idx restarts,
     the step count does not).  Scheduler frequency 1 and no in-epoch validation keep Lightning's per-epoch
@@ -1491,11 +1544,11 @@ def gen_cases(ctx):
     for _ in range(ctx.scale(30, 300)):
         cases.append(gen_history(rng, rng.choice(["rat", "torch"])))
     for _ in range(ctx.scale(85, 1000)):
-        cases.append(split_epochs(rng, tame(gen_case_rat(rng)), 0.2))
+        cases.append(share_param_with_val(rng, split_epochs(rng, tame(gen_case_rat(rng)), 0.2)))
     for _ in range(ctx.scale(20, 250)):
         cases.append(split_epochs(rng, tame(probe_case(rng)), 0.5))
     for _ in range(ctx.scale(42, 500)):
-        cases.append(split_epochs(rng, gen_case_torch(rng), 0.3))
+        cases.append(share_param_with_val(rng, split_epochs(rng, gen_case_torch(rng), 0.3)))
     return cases
 
 
@@ -1553,6 +1606,9 @@ def run(ctx, rep, cases=None):
                              model=(reply or "")[:200]), kind=case["channel"])
         rep.count("channel:" + case["channel"]); rep.count("opt:" + case["opt"]["kind"])
         rep.count(f"N={case['N']}")
+        for name in train_reachable(case, B):
+            shp = [tuple(t.shape) for n2, t, _ in B.tensors if n2 == name][0]
+            rep.count("trained-tensor-shape:" + ("0-d" if len(shp) == 0 else "(1,)" if shp == (1,) else "(1,1)" if shp == (1, 1) else f"{len(shp)}-d"))
         for c in case["train"]:
             rep.count("train:" + c["kind"])
             if c.get("res") in ("dataf", "paronlyf", "perf", "per2f") or c.get("with_f"):
@@ -1570,6 +1626,9 @@ def run(ctx, rep, cases=None):
         rep.count("validation:" + ("none" if not case["val"] else f"every{case.get('val_every')}" + ("+sanity" if case.get("sanity") else "")))
         if case["opt"].get("step_size"):
             rep.count("scheduler:StepLR")
+        tp_ = {c["param"] for c in case["train"] if c.get("param") is not None}
+        if any(c.get("param") in tp_ for c in case["val"]):
+            rep.count("validation-reads-trained-Parameter" + ("(sanity pass first)" if case.get("sanity") else ""))
         judge(rep, case, B, rec, Bref, ref, reply)
         judge_condition_values(rep, case)
         if case.get("limit_batches"):
